@@ -1,0 +1,131 @@
+// SPDX-FileCopyrightText: 2020 - 2025 SAP SE
+//
+// SPDX-License-Identifier: Apache-2.0
+
+//go:build verif
+
+package tds
+
+import (
+	"context"
+	"io"
+	"sync"
+)
+
+// This file is only compiled with the build tag "verif". It adds
+// hooks for the external verification harness and changes no
+// behaviour: a way to run a Conn over an arbitrary transport and
+// read-only accessors for decoded unexported members.
+
+// VerifNewConn is the tail of NewConn on top of the passed transport
+// instead of a dialed connection. If startReader is false the caller
+// is expected to run Conn.ReadFrom itself. The returned channel is
+// closed when the reader goroutine started here returns.
+func VerifNewConn(ctx context.Context, rwc io.ReadWriteCloser, info *Info, startReader bool) (*Conn, <-chan struct{}, error) {
+	tds := &Conn{
+		info:       info,
+		conn:       rwc,
+		packetSize: 512,
+	}
+
+	if err := tds.setCapabilities(); err != nil {
+		return nil, nil, err
+	}
+
+	tds.odce = aes_256_cbc
+
+	tds.ctx, tds.ctxCancel = context.WithCancel(ctx)
+	tds.tdsChannelCurFreeId = uint32(0)
+	tds.tdsChannels = make(map[int]*Channel)
+	tds.tdsChannelsLock = &sync.RWMutex{}
+	tds.errCh = make(chan error, 10)
+
+	done := make(chan struct{})
+	if startReader {
+		go func() {
+			defer close(done)
+			tds.ReadFrom()
+		}()
+	}
+
+	return tds, done, nil
+}
+
+// VerifChannelCount returns the number of registered channels.
+func (tds *Conn) VerifChannelCount() int {
+	tds.tdsChannelsLock.RLock()
+	defer tds.tdsChannelsLock.RUnlock()
+	return len(tds.tdsChannels)
+}
+
+// VerifConnErr returns a queued connection error without blocking.
+func (tds *Conn) VerifConnErr() error {
+	select {
+	case err := <-tds.errCh:
+		return err
+	default:
+		return nil
+	}
+}
+
+// VerifID returns the channel id.
+func (tdsChan *Channel) VerifID() int { return tdsChan.channelId }
+
+// VerifChanErr returns a queued channel error without blocking.
+func (tdsChan *Channel) VerifChanErr() error {
+	tdsChan.RLock()
+	defer tdsChan.RUnlock()
+	if tdsChan.closed {
+		return nil
+	}
+	select {
+	case err := <-tdsChan.errCh:
+		return err
+	default:
+		return nil
+	}
+}
+
+// VerifMembers returns the members of an EnvChangePackage.
+func (pkg *EnvChangePackage) VerifMembers() []EnvChangePackageField { return pkg.members }
+
+// VerifWide and VerifColumns expose decoded members of packages.
+func (pkg *ParamFmtPackage) VerifWide() bool          { return pkg.wide }
+func (pkg *RowFmtPackage) VerifWide() bool            { return pkg.wide }
+func (pkg *DynamicPackage) VerifWide() bool           { return pkg.wide }
+func (pkg *CurDeclarePackage) VerifWide() bool        { return pkg.wide }
+func (pkg *CurInfoPackage) VerifWide() bool           { return pkg.wide }
+func (pkg *CurDeclarePackage) VerifColumns() []string { return pkg.columns }
+
+// VerifTableName returns the table name of text pointer formats.
+func VerifTableName(f FieldFmt) (string, bool) {
+	switch t := f.(type) {
+	case *ImageFieldFmt:
+		return t.tableName, true
+	case *TextFieldFmt:
+		return t.tableName, true
+	case *UniTextFieldFmt:
+		return t.tableName, true
+	case *XMLFieldFmt:
+		return t.tableName, true
+	}
+	return "", false
+}
+
+// VerifTxtPtr returns text pointer and timestamp of text pointer data.
+func VerifTxtPtr(d FieldData) ([]byte, []byte, bool) {
+	switch t := d.(type) {
+	case *ImageFieldData:
+		return t.txtPtr, t.timeStamp, true
+	case *TextFieldData:
+		return t.txtPtr, t.timeStamp, true
+	case *UniTextFieldData:
+		return t.txtPtr, t.timeStamp, true
+	case *XMLFieldData:
+		return t.txtPtr, t.timeStamp, true
+	}
+	return nil, nil, false
+}
+
+// VerifPack returns the login record package built from the config.
+func (config *LoginConfig) VerifPack() (Package, error) { return config.pack() }
